@@ -46,6 +46,10 @@ def register(PROPS):
         },
         'drivers': [
             D('c05_manyuids', ['maxn=1000'], ['maxn=5000'], label='many-uids', shards=8),
+            D('c05_fdstate', ['depth=4'], ['depth=6'], label='fd-state', shards=4),
+            D('c05_attendees', ['maxn=3', 'maxlen=36'], ['maxn=4', 'maxlen=36'], label='attendees', shards=8),
+            D('c05_attendees', ['maxn=3', 'maxlen=24'], ['maxn=3', 'maxlen=36'], label='attendees-asan', shards=8, variant='asan'),
+            D('c05_fdstate', ['depth=3'], label='fd-state-asan', shards=4, variant='asan'),
             D('c05_manyuids', ['maxn=400'], ['maxn=1000'], label='many-uids-asan', shards=8, variant='asan'),
             # sweep 1: field mapping
             D('c05_fields', ['mode=map', 'maxsub=3', 'minfull=15'], ['mode=map'], label='fields-map'),
